@@ -788,7 +788,9 @@ def r07_5(cx):
         cx.bad('R07.5', b, 'sites', 'no iteration of StreamChunkIter::next rolls and fills the buffer')
         return
     why = dict.fromkeys(('fill-args', 'entry', 'match', 'preroll', 'guard', 'noskip', 'pos', 'rep', 'order', 'writers', 'scan'))
-    grid = [(p_, l_, m_) for p_ in (0, 1, 2, 3) for l_ in (0, 1, 2, 3) for m_ in (1, 2, 3)]
+    # (buffer_pos, len, min, reported): reported above and below buffer_pos, so that an asserted invariant between the two
+    # (e.g. a debug_assert!(reported <= pos) added by a refactoring) cannot make every grid point infeasible
+    grid = [(p_, l_, m_, q_) for p_ in (0, 1, 2, 3, 9) for l_ in (0, 1, 2, 3) for m_ in (1, 2, 3) for q_ in (7, 0)]
     for r in refill:
         ev = [e for e in r.effects if e[0] in ('call', 'store')]
         kinds = [kind(e) for e in ev]
@@ -806,8 +808,8 @@ def r07_5(cx):
             why['preroll'] = 'roll/fill reachable while a pre-roll chunk is pending'
         if rolls and rolls[0] > fi[0]:
             why['order'] = 'roll does not precede fill'
-        for p_, l_, m_ in grid:
-            at = by_cstr({POSS: p_, LENS: l_, MINS: m_, REPS: 7})
+        for p_, l_, m_, q_ in grid:
+            at = by_cstr({POSS: p_, LENS: l_, MINS: m_, REPS: q_})
             try:
                 cons = row_consistent(r, at)
             except Exception:
@@ -827,7 +829,9 @@ def r07_5(cx):
                 try:
                     if len(ps) != 1 or teval(ps[0][2], at) != m_:
                         why['pos'] = 'buffer_pos is not set to min before roll()'
-                    if len(rs) != 1 or teval(rs[0][2], at) != 7 - (l_ - m_) or _has_upd(rs[0][2]):
+                    if q_ - (l_ - m_) < 0:
+                        pass        # not a reachable state: a pending pre-roll chunk would have been flushed first
+                    elif len(rs) != 1 or teval(rs[0][2], at) != q_ - (l_ - m_) or _has_upd(rs[0][2]):
                         why['rep'] = 'buffer_reported_pos is not shifted by (pre-roll len) - min before roll()'
                 except (Unsupported, EvalPanic):
                     why['rep'] = why['rep'] or 'the roll adjustment cannot be evaluated'
@@ -843,11 +847,11 @@ def r07_5(cx):
             continue
         if r.cond(lambda c: c[0] == 'discr' and is_call(c[1], r'StreamChunkIter::get_pre_roll_non_match_chunk$')) == 1:
             continue
-        for p_, l_, m_ in grid:
+        for p_, l_, m_, q_ in grid:
             if p_ < l_:
                 continue
             try:
-                cons = row_consistent(r, by_cstr({POSS: p_, LENS: l_, MINS: m_, REPS: 7}))
+                cons = row_consistent(r, by_cstr({POSS: p_, LENS: l_, MINS: m_, REPS: q_}))
             except Exception:
                 cons = True
             if cons:
